@@ -29,6 +29,23 @@ impl Clone for MultiPattern {
     }
 }
 
+/// Appending characters to the pattern text extends its last atom. The previous
+/// matches can only be reused if every item matched by the extended atom was
+/// also matched by the old one. That is not the case for a negated atom, for
+/// `foo$` (the `$` turns into a literal character), for a text that ended in a
+/// backslash (it may now escape the next character) and for a non-fuzzy atom
+/// that ended in an escaped `\$`.
+fn can_append_to(atom: &Atom) -> bool {
+    if atom.negative || matches!(atom.kind, AtomKind::Postfix | AtomKind::Exact) {
+        return false;
+    }
+    match atom.needle_text().chars().next_back() {
+        Some('\\') => false,
+        Some('$') => atom.kind == AtomKind::Fuzzy,
+        _ => true,
+    }
+}
+
 impl MultiPattern {
     /// Creates a multi pattern with `columns` empty column patterns.
     pub fn new(columns: usize) -> Self {
@@ -56,7 +73,7 @@ impl MultiPattern {
                 .0
                 .atoms
                 .last()
-                .map_or(true, |last| !last.negative)
+                .map_or(true, can_append_to)
         {
             self.cols[column].1 = Status::Update;
         } else {
